@@ -52,6 +52,8 @@ void ascon_add_bytes
 {
     uint64_t value;
     unsigned posn, shift, ofs, len;
+    if (size == 0U)
+        return; /* nothing to do; data may be NULL */
     ofs = offset & 7U;
     if (ofs != 0U) {
         shift = (7U - ofs) * 8U;
@@ -86,6 +88,8 @@ void ascon_overwrite_bytes
 {
     uint64_t value;
     unsigned posn, shift, ofs, len;
+    if (size == 0U)
+        return; /* nothing to do; data may be NULL */
     ofs = offset & 7U;
     if (ofs != 0U) {
         ascon_squeeze_word64(state, value, offset / 8U);
@@ -152,6 +156,8 @@ void ascon_extract_bytes
 {
     uint64_t value;
     unsigned posn, shift, ofs, len;
+    if (size == 0U)
+        return; /* nothing to do; data may be NULL */
     ofs = offset & 7U;
     if (ofs != 0U) {
         ascon_squeeze_word64(state, value, offset / 8U);
